@@ -235,7 +235,7 @@ func randOps(rnd *rand.Rand, cat *Catalog, steps int, profile string, honest boo
 			case 0:
 				mt = "other"
 			case 1:
-				mt = pick([]string{"image", "index", "other2", "other3", "other3"})
+				mt = pick([]string{"image", "index", "other2", "other3", "other4", "other4"})
 			}
 			if !json.Valid(c.Data) && rnd.Intn(3) == 0 {
 				// bytes that are not JSON, offered as a manifest type the registry reads
